@@ -102,9 +102,8 @@ def patchrt (c : Json) : Json :=
     match Parse.parse t with
     | none => .obj [("class", .str "err")]
     | some d =>
-      let names : List String := match d with | .obj kvs => kvs.map (fun kv => kv.1) | _ => []
-      if !(names.all PatchBuild.ordinaryName) then outOfDomain "member name with pointer or quoting metacharacters"
-      else if !d.wf then outOfDomain "duplicate member names"
+      -- (member names with JSON-pointer or quoting metacharacters are in the domain since the D30 repair)
+      if !d.wf then outOfDomain "duplicate member names"
       else match PatchBuild.fromDocument d with
         | none => .obj [("class", .str "err")]
         | some ps =>
